@@ -123,12 +123,13 @@ def prove(prop, thorough):
             targets.append(name.replace('.', '/') + '.vo')
     res['checker_cmd'] = 'make -C coq %s && coqc -Q coq GV coq/%s/Property.v  (Coq 8.16.1; Print Assumptions after each theorem)' % (' '.join(targets), prop)
     t0 = time.time()
-    rc, out = sh('timeout 1500 make -j8 %s 2>&1 | tail -60' % ' '.join(targets), cwd=COQ, timeout=1600)
+    rc, out = sh('timeout 1500 make -j8 %s 2>&1' % ' '.join(targets), cwd=COQ, timeout=1600)
+    out = out[-6000:]
     res['log'] += out
     # make's exit code is hidden by the pipe: look for the targets instead
     missing = [t for t in targets if not os.path.exists(os.path.join(COQ, t))
                or os.path.getmtime(os.path.join(COQ, t)) < os.path.getmtime(os.path.join(COQ, t[:-1]))]
-    if 'Error' in out or missing:
+    if rc != 0 or missing:
         m = re.search(r'File "([^"]+)", line (\d+)[^\n]*\n(Error:[^\n]*(?:\n[^\n]+){0,6})', out)
         res['broken'].append('proof obligations no longer check: %s' % (('%s line %s: %s' % (m.group(1), m.group(2), m.group(3))) if m else (out[-800:])))
         return res
@@ -151,9 +152,9 @@ def prove(prop, thorough):
     res['wall_s'] = round(time.time() - t0, 2)
     if thorough and not res['broken']:
         mods = ' '.join('GV.' + t[:-3].replace('/', '.') for t in targets if t.startswith(prop + '/'))
-        rc, out = sh('timeout 2400 coqchk -silent -o -Q . GV %s 2>&1 | tail -40' % mods, cwd=COQ, timeout=2500)
+        rc, out = sh('timeout 2400 coqchk -silent -o -Q . GV %s 2>&1' % mods, cwd=COQ, timeout=2500)
         res['coqchk'] = out[-3000:]
-        if 'Fatal' in out or 'Error' in out:
+        if rc != 0:
             res['broken'].append('coqchk rejected the compiled proofs: ' + out[-500:])
     return res
 
@@ -165,9 +166,10 @@ def build_driver(prop):
     ext = os.path.join(COQ, prop, 'Extract.v')
     if not os.path.exists(ext):
         return False, 'no Extract.v'
-    rc, out = sh('timeout 900 make -j8 %s/Model.vo 2>&1 | tail -30' % prop, cwd=COQ, timeout=1000)
+    rc, out = sh('timeout 900 make -j8 %s/Model.vo 2>&1' % prop, cwd=COQ, timeout=1000)
+    out = out[-3000:]
     modelvo = os.path.join(COQ, prop, 'Model.vo')
-    if 'Error' in out or not os.path.exists(modelvo):
+    if rc != 0 or not os.path.exists(modelvo):
         return False, 'model does not compile: ' + out[-1500:]
     # hash of everything the driver depends on
     h = hashlib.sha256()
@@ -221,9 +223,9 @@ def setup():
             for f in coq_files():
                 if f.startswith(prop + '/'):
                     targets.append(f + 'o')
-        rc, out = sh('timeout 3000 make -k -j16 %s 2>&1 | tail -40' % ' '.join(targets), cwd=COQ, timeout=3100)
-        print(out)
-        ok_all = 'Error' not in out
+        rc, out = sh('timeout 3000 make -k -j16 %s 2>&1' % ' '.join(targets), cwd=COQ, timeout=3100)
+        print(out[-3000:])
+        ok_all = rc == 0
         for prop in props:
             if os.path.exists(os.path.join(COQ, prop, 'Extract.v')):
                 ok, msg = build_driver(prop)
